@@ -4,3 +4,4 @@ import Atlas.Pending
 import Atlas.Exec
 import Atlas.Hash
 import Atlas.Lex
+import Atlas.Format
